@@ -220,7 +220,7 @@ def make_cfg(rng) -> dict:
     deep = os.environ.get("GEOSIM_TIER") == "thorough"
     return {"profile": "c06", "main_dim": rng.choice([1, 2, 2, 3, 3]),
             "n_steps": rng.choice([6, 10, 16, 24, 30, 45, 60] if deep else [6, 10, 16, 24, 30]),
-            "n_clients": 1, "big_coll": rng.random() < 0.3, "p_float": rng.choice([0.0, 0.5]), "p_complex": rng.choice([0.0, 0.0, 0.2]),
+            "n_clients": 1, "big_coll": rng.random() < 0.3, "p_float": rng.choice([0.0, 0.5]), "p_complex": rng.choice([0.0, 0.0, 0.2]), "narrow": rng.random() < 0.3,
             "p_scaled": rng.choice([0.0, 0.4]), "p_degenerate": 0.0, "cold_start": rng.random() < 0.5, "warm": [],
             "p_law": rng.choice([0.35, 0.5])}
 
